@@ -236,7 +236,7 @@ def has_header(blob):
 
 def session_defaults(p):
     q = {"level": "l", "chmax": 2, "flags": 3, "rxp": 0, "script": "", "dflt": "o", "ops": "cd", "chunk": 0, "poll": 0.01,
-         "noise": [], "inject": {}, "read_inject": {}, "stream_every": 0, "en": False, "seed": 0, "port": "sim"}
+         "noise": [], "inject": {}, "read_inject": {}, "stream_every": 0, "en": False, "seed": 0, "port": "sim", "backlog": None}
     q.update(p)
     return q
 
@@ -257,6 +257,11 @@ def run_session(p, time_limit=None, real_limit=20.0):
         from nxslib.proto.parse import Parser
         chmax = p["chmax"]
         inject = {int(k): (bytes.fromhex(v[0]), v[1]) for k, v in p["inject"].items()}
+        if p["backlog"]:
+            # the device flushes `n` well-formed STREAM frames (a sample of every channel) when request `at` arrives
+            bl = p["backlog"]
+            assert int(bl["at"]) not in inject
+            inject[int(bl["at"])] = (bytes.fromhex(stream_frame_hex(chmax)) * int(bl["n"]), bl.get("where", "mid"))
         pol = ScriptPolicy(p["script"], p["dflt"], inject)
         dev = refdev.RefDevice(sl.mk_chans([p["en"]] * chmax, [0] * chmax), flags=p["flags"], rxpadding=p["rxp"], policy=pol)
         chunk = p["chunk"]
@@ -315,6 +320,19 @@ def run_session(p, time_limit=None, real_limit=20.0):
             except vsim.TimeLimit:
                 pass
             while not done["v"]:
+                m = sim.tasks[0]
+                if m.state == "blocked" and m.deadline is None:
+                    # the call waits WITHOUT a time-out (a lock it holds itself, join() of a wedged thread, put() on a full
+                    # queue): the main task never advances the clock, so it can never be handed the TimeLimit verdict, and
+                    # with this watchdog (or a noise source) alive vsim does not see the deadlock either.  The budget is over:
+                    # end the simulation the way vsim ends a deadlock noticed at a task's exit (main gets `Killed`,
+                    # `run_sim` reports Deadlock with the task table).
+                    sim.errors.append(("hx-watchdog", vsim.Deadlock(
+                        f"past its time budget (t={sim.now:.2f}) the call is blocked without a time-out on '{m.what}': "
+                        + repr(sim.tasks)), "watchdog"))
+                    stop_noise["v"] = True
+                    sim._wake_main()
+                    return
                 if sim.time_limit == float("inf"):
                     sim.time_limit = sim.now
                 try:
@@ -354,7 +372,7 @@ def run_session(p, time_limit=None, real_limit=20.0):
                     rec["res"] = "ok"
                 else:
                     raise ValueError(op)
-            except (vsim.RealTimeLimit, vsim.TimeLimit, vsim.Spin, vsim.Deadlock):
+            except (vsim.RealTimeLimit, vsim.TimeLimit, vsim.Spin, vsim.Deadlock, vsim.Killed):
                 rec["res"] = "never-returned"
                 rec["t1"] = sim.now
                 rec["thr"] = lib_tasks(sim)
@@ -390,7 +408,10 @@ def run_session(p, time_limit=None, real_limit=20.0):
 
     budget = time_limit if time_limit is not None else session_budget(p) + 30.0
     try:
-        r, sim = vsim.run_sim(scenario, time_limit=budget, real_limit=real_limit, spin_limit=50000)
+        # a burst of n frames is n x (a few dozen) primitive operations of finite work at one instant of virtual time
+        # (the stream thread decodes the whole backlog without waiting): not a spin
+        spin = 50000 + 200 * int((p["backlog"] or {}).get("n", 0))
+        r, sim = vsim.run_sim(scenario, time_limit=budget, real_limit=real_limit, spin_limit=spin)
     finally:
         neutralize()
     res["errors"] = [(n, repr(e)) for n, e, _ in sim.errors]
@@ -795,9 +816,39 @@ def serial_port_scenarios(rng, T):
     return out
 
 
+def backlog_scenarios(rng, T):
+    """stream backlog during the handshake: the device was streaming when the host connects and flushes n well-formed STREAM
+    frames (the "wrong frame" for a handshake request, finitely many bytes) when request k arrives (0 stop, 1 common info,
+    2.. channel info), in front of / behind its correct answer, and answers everything else correctly.  Nobody reads the stream
+    queue during the handshake: the receive thread must get through the backlog to the answer behind it whatever n is
+    (C10-r5m1 bounds the queue to 2048 frames and keeps the blocking put(): the receive thread wedges at frame 2049, every
+    attempt times out and the cleanup join() never returns).  Both handler levels, ops cd / csd (high level: the stream
+    thread then has to digest what the handshake left queued), devices with and without ACK support."""
+    out = []
+    chmax = 2
+    for level in "lh":
+        for ops in ("cd", "csd"):
+            for n in (100, 3000, 6000):
+                for k in range(0, 2 + chmax):
+                    wheres = ("mid", "pre", "post") if T else (("mid", "post", "pre")[(k + n // 100) % 3],)
+                    if not T and n == 100 and k not in (1, 2):
+                        continue
+                    for where in wheres:
+                        out.append({"kind": "stream-backlog-at-handshake", "level": level, "chmax": chmax, "en": True,
+                                    "flags": (3, 0, 2)[(k + len(ops) + (level == "h")) % 3], "dflt": "o", "ops": ops,
+                                    "backlog": {"at": k, "n": n, "where": where}})
+    if T:
+        # other device sizes, the backlog at the last channel-info request, a second session on the same handler
+        for level, cm, ops in (("l", 0, "cdcd"), ("h", 0, "csd"), ("l", 5, "cd"), ("h", 5, "csdcd"), ("l", 1, "ccd"), ("h", 1, "cstd")):
+            for n in (2048, 2049, 6000):
+                out.append({"kind": "stream-backlog-at-handshake", "level": level, "chmax": cm, "en": True, "dflt": "o", "ops": ops,
+                            "backlog": {"at": 1 + cm, "n": n, "where": "mid"}})
+    return out
+
+
 def all_scenarios(rng, tier):
     T = tier == "thorough"
-    return slow_stream_scenarios(rng, T) + serial_port_scenarios(rng, T) + noise_scenarios(rng, T) + boundary_scenarios(rng, T) + postconnect_scenarios(rng, T) + \
+    return backlog_scenarios(rng, T) + slow_stream_scenarios(rng, T) + serial_port_scenarios(rng, T) + noise_scenarios(rng, T) + boundary_scenarios(rng, T) + postconnect_scenarios(rng, T) + \
         fault_point_scenarios(rng, T)
 
 
@@ -817,6 +868,10 @@ def run_scenario(sc):
                       "calls": session_defaults(p)["ops"] + " (c connect, s stream_start, t stream_stop, d disconnect, p pause 0.3 s) on "
                                + ("NxscopeHandler" if session_defaults(p)["level"] == "h" else "CommHandler"),
                       "link": {k: session_defaults(p)[k] for k in ("poll", "chunk", "noise", "inject", "read_inject", "stream_every")},
+                      "backlog": (f"when request {p['backlog']['at']} (0 stop, 1 common info, 2.. channel info) arrives the device puts "
+                                  f"{p['backlog']['n']} copies of the STREAM frame {stream_frame_hex(session_defaults(p)['chmax'])} on the wire "
+                                  f"({ {'pre': 'in front of everything pending', 'mid': 'just before its answer', 'post': 'just after its answer'}[p['backlog'].get('where', 'mid')]})"
+                                  if p.get("backlog") else None),
                       "per_call": [{k: o.get(k) for k in ("op", "res", "t0", "t1", "thr", "intf")} for o in r["ops"]]}
     return v
 
@@ -833,7 +888,8 @@ class C10(Prop):
             "compared with the model.  extra_checks (termination oracle only): sustained rate-limited noise sources (1 ms..1 s; "
             "55, 5506, 55ffff07, 00, random), residues at every request index, noise at a read index, reconnects with a stale "
             "buffer, non-UTF-8 names, zero / 255 channels, a link whose idle read blocks 9 s, really streaming devices, a device "
-            "that ignores the stop request and keeps streaming one frame per 0.11..0.35 s, the real SerialDevice over a virtual-time "
+            "that ignores the stop request and keeps streaming one frame per 0.11..0.35 s, a device that flushes a backlog of "
+            "100 / 3000 / 6000 stream frames at handshake request k before / behind its answer (both levels, cd / csd), the real SerialDevice over a virtual-time "
             "port with line noise every 0.05..0.9 s.  Time limits of the oracle: the sum of the call's own time-outs as read from "
             "the source under test (x 1.25 + 1 s), not fixed figures; "
             "distinct = distinct line; non-trivial = script with at least one fault")
